@@ -77,6 +77,8 @@ def render(prog, prelude=True):
                 f"{tgt} = new Object at ({10 * st[1]}, 0, 0), with allowCollisions True, {props}"
             )
             nobj += 1
+        elif k == "setego":
+            lines.append(f"ego = ob{st[1]}")
     if nobj == 0:
         lines.append("ego = new Object")
     return "\n".join(lines) + "\n"
@@ -254,3 +256,24 @@ def programs(tier):
                     )
                     yield idx, prog2
                     idx += 1
+    # `ego` rebound after a requirement that mentions it: the requirement keeps talking about
+    # the object `ego` named when the statement was executed
+    leaves = (LEAVES_T if thorough else LEAVES_Q)
+    conds = [(">=", 2), ("!=", 1), ("<", 2)] if thorough else [(">=", 2), ("!=", 1)]
+    for l1, l2 in itertools.product(leaves, repeat=2):
+        for (op, c), p in itertools.product(conds, (None, 0.5)):
+            for second in (None, ("!=", 2)):
+                prog = [
+                    ("let", "x0", l1),
+                    ("let", "x1", l2),
+                    ("object", 1, [("foo", N("x0"))]),
+                    ("setego", 1),
+                    ("require", p, (op, N("ego.foo"), c)),
+                    ("object", 2, [("foo", N("x1"))]),
+                    ("setego", 2),
+                ]
+                if second:
+                    prog.append(("require", None, (second[0], N("ego.foo"), second[1])))
+                prog += [("param", "p0", N("x0")), ("param", "p1", N("x1"))]
+                yield idx, prog
+                idx += 1
